@@ -72,7 +72,8 @@ def cases(tier, seed):
         for part in range(0, len(wins), 50):
             yield "rq.api", {"n": n, "mode": mode, "px": px, "chunk": chunk, "open": how, "wins": wins[part:part + 50],
                              **({"at": AT[idx % 2]} if idx % 4 == 1 else {}),
-                             **({"scale": 4} if idx % 6 == 2 else {})}          # float64 counts (multiples of 1/4)
+                             **({"scale": 4} if idx % 6 == 2 else {}),          # float64 counts (multiples of 1/4)
+                             **({"prior": True} if idx % 5 == 3 else {})}       # the path held another collection before
     # API on tables with several chromosomes (index space is what matters; the table must not)
     for name, table in gen.REPRESENTATIVE_TABLES.items():
         n = len(table)
@@ -83,7 +84,7 @@ def cases(tier, seed):
                 rng.shuffle(wins)
                 yield "rq.api", {"n": n, "mode": mode, "px": px, "chunk": rng.choice([1, 2, 10 ** 7]),
                                  "open": rng.choice(["handle", "path", "uri"]), "wins": wins[:60], "table": table,
-                                 **({"at": AT[n % 2]} if mode == "square" else {})}
+                                 **({"at": AT[n % 2]} if mode == "square" else {}), "prior": n % 2 == 1}
     # (4) slice spellings
     for n in ((3,) if tier == "quick" else (3, 4)):
         keys = slice_keys(n)
